@@ -104,10 +104,6 @@ def parse_vep(args:argparse.Namespace) -> None:
                 tally.total += 1
                 transcript_id = record.feature
 
-                if transcript_id not in vep_records:
-                    vep_records[transcript_id] = []
-
-
                 try:
                     record = record.convert_to_variant_record(anno, genome)
                     tally.succeed += 1
@@ -128,6 +124,8 @@ def parse_vep(args:argparse.Namespace) -> None:
                         continue
                     raise
 
+                if transcript_id not in vep_records:
+                    vep_records[transcript_id] = []
                 vep_records[transcript_id].append(record)
 
         logger.info('VEP file %s loaded.', vep_file)
